@@ -234,8 +234,9 @@ ARENA_TIERS = {
 # which observable differences matter to which property (DESIGN.md §3.4)
 MISMATCH_PROPS = {
     ("follow", "res"): ["C01", "C02", "C04", "C09", "C11", "C12"],
-    ("follow", "cap"): ["C06", "C11", "C18"],
-    ("follow", "chunks"): ["C06", "C10", "C11"],
+    # the finger is the state every placement theorem rests on
+    ("follow", "cap"): ["C01", "C02", "C04", "C06", "C10", "C11", "C12", "C18"],
+    ("follow", "chunks"): ["C01", "C02", "C04", "C06", "C10", "C11", "C12", "C18"],
     ("follow", "stores"): ["C20"],
     ("follow", "frees"): ["C03"],
     ("follow", "reqs"): ["C03", "C07", "C11", "C18"],
